@@ -567,6 +567,10 @@ func hFsm(dir string, kind string) {
 			fsmSize(out, r)
 		}
 	}
+	if kind == "size" {
+		out.Line("reset", "ok")
+		fsmSizeBoundary(out)
+	}
 	// generator self-checks: a degenerate distribution must not pass silently
 	if kind == "hist" && n >= 100 {
 		for _, k := range []string{"upd", "look", "iter", "ltxn", "look_more"} {
@@ -765,4 +769,46 @@ func fsmSize(out *Out, r *rand.Rand) {
 	in.updateAs(out, "kf K2 upd", 0, []fsmEntry{mkEntry(idx, del)})
 	in.look(out, 0, fullRange())
 	in.indices(out, 0)
+}
+
+// fsmSizeBoundary looks for a message that does not fit the transport: two values whose sizes add up to the
+// chunk budget of the current source (VerifMaxRangeSize) minus 0 .. 48 bytes, read as one streamed range; every
+// chunk, dressed as the RangeResponse the engine sends (pairs, more, count, a header with five full-width
+// numbers), is measured with the codec's own size function and must stay within gRPC's 4 MiB message limit
+// (theorem c09_chunk_size: at least 512 bytes below it).  When the theorem no longer holds for the current
+// constants this sweep is what finds the concrete input.
+func fsmSizeBoundary(out *Out) {
+	in := newFsmInst(fsm.SnapshotRecoveryType(0))
+	defer in.f.Close()
+	in.notif, in.vis = nil, nil
+	out.Line("new 0", "ok")
+	budget := int(fsm.VerifMaxRangeSize)
+	half := budget / 2
+	idx := uint64(1)
+	in.update(out, 0, []fsmEntry{mkEntry(idx, &regattapb.Command{Table: []byte("tab"), Type: regattapb.Command_PUT, Kv: &regattapb.KeyValue{Key: []byte("a"), Value: bytes.Repeat([]byte{0x41}, half)}})})
+	const big = ^uint64(0)
+	for d := 0; d <= 48; d++ {
+		idx++
+		in.update(out, 0, []fsmEntry{mkEntry(idx, &regattapb.Command{Table: []byte("tab"), Type: regattapb.Command_PUT, Kv: &regattapb.KeyValue{Key: []byte("b"), Value: bytes.Repeat([]byte{0x42}, budget-half-d)}})})
+		ans := guard(func() string {
+			r, err := in.f.Lookup(fsm.IteratorRequest{RangeOp: &regattapb.RequestOp_Range{Key: []byte("a"), RangeEnd: []byte("c")}})
+			if err != nil {
+				return "err other"
+			}
+			worst := 0
+			r.(iter.Seq[*regattapb.ResponseOp_Range])(func(rr *regattapb.ResponseOp_Range) bool {
+				m := &regattapb.RangeResponse{Header: &regattapb.ResponseHeader{ShardId: big, ReplicaId: big, Revision: big, RaftTerm: big, RaftLeaderId: big}, Kvs: rr.Kvs, More: rr.More, Count: rr.Count}
+				if sz := m.SizeVT(); sz > worst {
+					worst = sz
+				}
+				return true
+			})
+			if worst > 4*1024*1024 {
+				return fmt.Sprintf("MESSAGE-TOO-BIG-FOR-THE-TRANSPORT %d bytes", worst)
+			}
+			return "ok"
+		})
+		out.Line(fmt.Sprintf("msgsize %d %d", half, budget-half-d), ans)
+		out.Count("msgsize")
+	}
 }
